@@ -687,15 +687,16 @@ Definition tv_tail (E : env) (u : user) (shared : bool) : M (user * bool * optio
     | None => ret (u, shared, Some TInvalid)
     end
   else
-    let input := aget f_code vals in
+    let raw := aget f_code vals in
+    let input := trim_space raw in
     if c_onetime (e_cfg E) then
       (if beqb (u_totp_last u) input then ret (u, shared, Some TRepeated) else
        let u' := u <| u_totp_last := input |> in
        store_back u' shared ;;;
-       if negb (totp_ok E (u_totp u) input) then ret (u', shared, Some TInvalid)
+       if negb (totp_ok E (u_totp u) raw) then ret (u', shared, Some TInvalid)
        else ret (u', shared, Some TSuccess))
     else
-      (if negb (totp_ok E (u_totp u) input) then ret (u, shared, Some TInvalid)
+      (if negb (totp_ok E (u_totp u) raw) then ret (u, shared, Some TInvalid)
        else ret (u, shared, Some TSuccess)).
 
 Definition tv_head (E : env) : M (user * bool) :=
@@ -754,7 +755,7 @@ Proof.
   destruct (bempty rc) eqn:Brc; cbn [negb] in E2.
   - (* by code *)
     destruct (c_onetime (e_cfg E)).
-    + destruct (beqb (u_totp_last u) code).
+    + destruct (beqb (u_totp_last u) (trim_space code)).
       { left. inversion E2; subst. apply NO; [discriminate|reflexivity]. }
       apply bind_inv in E2 as [(a & h2 & E1 & K)|[(e & E1 & ->)|(E1 & ->)]];
         apply store_back_spec in E1 as [Hr S2]; try discriminate Hr.
@@ -861,7 +862,7 @@ Lemma totp_confirm_cases h u r h' :
     totp_ok E secret code = true /\
     h_st h' = h_st h <| s_users := uput (u_pid u)
        (u <| u_totp := secret |> <| u_recovery := encode_codes (map (pwhash C) codes) |>
-          <| u_totp_last := (if c_onetime (e_cfg E) then code else u_totp_last u) |>)
+          <| u_totp_last := (if c_onetime (e_cfg E) then trim_space code else u_totp_last u) |>)
        (s_users (h_st h)) |>.
 Proof.
   intros Hc Eq. unfold totp_confirm_post in Eq.
